@@ -67,6 +67,19 @@ fn prepare(args: &Args) -> i32 {
 			ops.push(json!({"op": "block", "hash": b.hash().to_hex()}));
 			inputs.push(b);
 		}
+		"extend_plain" => {
+			// two blocks without any spend: the leaf set only grows, so the start-up rewind to the old head
+			// (a no-op on the MMR sizes) is all the recovery there is
+			let mut prev = builder.head_header().unwrap();
+			for _ in 0..2 {
+				let h = prev.height + 1;
+				let b = make_block(&builder, &prev, h, 1, &[]);
+				builder.process_block(b.clone(), Options::SKIP_POW).expect("builder plain block");
+				prev = b.header.clone();
+				ops.push(json!({"op": "block", "hash": b.hash().to_hex()}));
+				inputs.push(b);
+			}
+		}
 		"fork" => {
 			// sibling of the head with equal work, spending the same coinbase differently
 			let prev = hdr(n - 1);
@@ -190,7 +203,43 @@ fn recover(args: &Args) -> i32 {
 	let mut out = json!({"init": "ok", "reopened": state(&chain)});
 	let v = std::panic::catch_unwind(std::panic::AssertUnwindSafe(|| chain.validate(false)));
 	out["validate"] = json!(match &v { Ok(Ok(())) => "ok".to_string(), Ok(Err(e)) => format!("err:{:?}", e), Err(_) => "panic".into() });
-	// re-deliver: every main-chain block, then the scenario's operations again
+	// first re-deliver the interrupted input alone (the scenario's operations): the statement's clause
+	let run_ops = |errs: &mut Vec<String>| {
+		for op in desc["ops"].as_array().unwrap() {
+			let r = std::panic::catch_unwind(std::panic::AssertUnwindSafe(|| -> Result<(), String> {
+				match op["op"].as_str().unwrap() {
+					"block" => {
+						let b = find(&all, op["hash"].as_str().unwrap()).clone();
+						match chain.process_block(b, Options::SKIP_POW) {
+							Ok(_) => Ok(()),
+							Err(e) => {
+								let s = format!("{:?}", e);
+								if s.contains("Unfit") || s.contains("OldBlock") { Ok(()) } else { Err(s) }
+							}
+						}
+					}
+					"headers" => {
+						let hs: Vec<_> = op["hashes"].as_array().unwrap().iter()
+							.map(|h| find(&all, h.as_str().unwrap()).header.clone()).collect();
+						let sync_head: Tip = chain.header_head().unwrap();
+						chain.sync_block_headers(&hs, sync_head, Options::SKIP_POW).map(|_| ()).map_err(|e| format!("{:?}", e))
+					}
+					"compact" => chain.compact().map_err(|e| format!("{:?}", e)),
+					_ => Ok(()),
+				}
+			}));
+			match r {
+				Ok(Err(e)) => errs.push(format!("{}:{}", op["op"], e)),
+				Err(_) => errs.push(format!("{}:panic", op["op"])),
+				_ => {}
+			}
+		}
+	};
+	let mut input_errs = vec![];
+	run_ops(&mut input_errs);
+	out["input_errors"] = json!(input_errs);
+	out["input_final"] = state(&chain);
+	// then everything: every main-chain block above the head, and the scenario's operations again
 	let main_len = desc["main_len"].as_u64().unwrap() as usize;
 	let mut errs = vec![];
 	for b in all.iter().skip(1).take(main_len) {
@@ -210,35 +259,7 @@ fn recover(args: &Args) -> i32 {
 			_ => {}
 		}
 	}
-	for op in desc["ops"].as_array().unwrap() {
-		let r = std::panic::catch_unwind(std::panic::AssertUnwindSafe(|| -> Result<(), String> {
-			match op["op"].as_str().unwrap() {
-				"block" => {
-					let b = find(&all, op["hash"].as_str().unwrap()).clone();
-					match chain.process_block(b, Options::SKIP_POW) {
-						Ok(_) => Ok(()),
-						Err(e) => {
-							let s = format!("{:?}", e);
-							if s.contains("Unfit") || s.contains("OldBlock") { Ok(()) } else { Err(s) }
-						}
-					}
-				}
-				"headers" => {
-					let hs: Vec<_> = op["hashes"].as_array().unwrap().iter()
-						.map(|h| find(&all, h.as_str().unwrap()).header.clone()).collect();
-					let sync_head: Tip = chain.header_head().unwrap();
-					chain.sync_block_headers(&hs, sync_head, Options::SKIP_POW).map(|_| ()).map_err(|e| format!("{:?}", e))
-				}
-				"compact" => chain.compact().map_err(|e| format!("{:?}", e)),
-				_ => Ok(()),
-			}
-		}));
-		match r {
-			Ok(Err(e)) => errs.push(format!("{}:{}", op["op"], e)),
-			Err(_) => errs.push(format!("{}:panic", op["op"])),
-			_ => {}
-		}
-	}
+	run_ops(&mut errs);
 	out["redeliver_errors"] = json!(errs);
 	out["final"] = state(&chain);
 	let v = std::panic::catch_unwind(std::panic::AssertUnwindSafe(|| chain.validate(false)));
